@@ -1,10 +1,10 @@
 package kernel
 
 import (
-	"sync"
 	"fmt"
 	"hash/fnv"
 	"strings"
+	"sync"
 )
 
 // CrashSignal unwinds a simulated process that has been killed.
@@ -29,22 +29,24 @@ type World struct {
 
 	seamMu sync.Mutex
 
-	tapePos  int
-	tapeRNG  *RNG
-	EffTape  []uint32 // choices actually taken (for replay files)
-	MaxSteps int
+	tapePos              int
+	tapeRNG              *RNG
+	EffTape              []uint32 // choices actually taken (for replay files)
+	MaxSteps             int
+	unordered            bool
+	unordLog, unordInter uint64
 
 	keepLog bool
 	logHash uint64
 	interH  uint64
 	states  map[uint64]struct{}
 
-	curOp   map[int]int    // proc -> op id being executed
-	counts  map[string]int // fault-matching counters
-	procs   []*Proc
-	back    chan struct{}
-	cut     bool
-	multi   bool
+	curOp    map[int]int    // proc -> op id being executed
+	counts   map[string]int // fault-matching counters
+	procs    []*Proc
+	back     chan struct{}
+	cut      bool
+	multi    bool
 	Deadlock bool
 	// Cur is the process currently running (exactly one runs at a time);
 	// hooks without a process argument use it.
@@ -82,11 +84,29 @@ func fnvMix(h uint64, s string) uint64 {
 func (w *World) Event(proc int, site, detail string) {
 	w.Res.Steps++
 	line := fmt.Sprintf("%d p%d %s %s", w.Res.Steps, proc, site, detail)
-	w.logHash = fnvMix(w.logHash, line)
-	w.interH = fnvMix(w.interH, fmt.Sprintf("p%d %s", proc, site))
+	if w.unordered {
+		// (see BeginUnordered) the set of events counts, not their order
+		w.unordLog += fnvMix(0, fmt.Sprintf("p%d %s %s", proc, site, detail))
+		w.unordInter += fnvMix(0, fmt.Sprintf("p%d %s", proc, site))
+	} else {
+		w.logHash = fnvMix(w.logHash, line)
+		w.interH = fnvMix(w.interH, fmt.Sprintf("p%d %s", proc, site))
+	}
 	if w.keepLog {
 		w.Res.Log = append(w.Res.Log, line)
 	}
+}
+
+// BeginUnordered opens a section in which the code under test does the same storage calls in an order of its own
+// (it walks a Go map): until EndUnordered the events enter the run's log hashes as a set, so that equal runs keep
+// equal hashes. Nothing is scheduled or injected by event order inside such a section.
+func (w *World) BeginUnordered() { w.unordered, w.unordLog, w.unordInter = true, 0, 0 }
+
+// EndUnordered closes the section opened by BeginUnordered.
+func (w *World) EndUnordered() {
+	w.unordered = false
+	w.logHash = fnvMix(w.logHash, fmt.Sprintf("unordered %d", w.unordLog))
+	w.interH = fnvMix(w.interH, fmt.Sprintf("unordered %d", w.unordInter))
 }
 
 // State records a property-specific abstract state for the reach measure.
